@@ -45,6 +45,7 @@ type Obligation struct {
 	Replace   map[string]string `json:"replace"`
 	SchedChoice bool            `json:"sched_choice"`
 	MapOrderChoice bool         `json:"map_order_choice"`
+	HashIDs   bool              `json:"hash_ids"`
 	AllocBudget int64           `json:"alloc_budget"`
 	AllocCap    int64           `json:"alloc_cap"`
 	StepsArePanic bool          `json:"steps_are_panic"`
@@ -622,7 +623,7 @@ func matchFinding(fs []Finding, prop, obl string, v interp.Violation) *Finding {
 
 func (r *runner) config(o *Obligation, tc *TierCfg, params map[string]int) *interp.Config {
 	cfg := &interp.Config{InitAllow: map[string]bool{}, Replace: o.Replace, TargetPrefix: modPath, MaxSteps: tc.MaxSteps, MaxPaths: tc.MaxPaths,
-		Workers: *workers, SchedChoice: o.SchedChoice, MapOrderChoice: o.MapOrderChoice, AllocBudget: o.AllocBudget, AllocCap: o.AllocCap, StepsArePanic: o.StepsArePanic, Params: params,
+		Workers: *workers, SchedChoice: o.SchedChoice, MapOrderChoice: o.MapOrderChoice, HashIDs: o.HashIDs, AllocBudget: o.AllocBudget, AllocCap: o.AllocCap, StepsArePanic: o.StepsArePanic, Params: params,
 		TimeoutMs: tc.QueryMs, MaxConcretize: tc.MaxConcretize}
 	for _, a := range interp.DefaultInitAllow {
 		cfg.InitAllow[a] = true
